@@ -411,10 +411,16 @@ pub fn find_op(a: &[&str]) -> Option<String> {
     verif::register_region(ph.ptr(), hay.len());
     verif::register_region(pn.ptr(), needle.len());
     verif::set_tick_limit(crate::tick_limit(hay.len(), needle.len()));
+    let t0 = std::time::Instant::now();
     let ((r, s1, s2), allocs) =
         alloc_probe::measure(|| memchr::memmem::verif_hooks::find_with_state(&f, skips, skipped, ph.slice()));
+    let ns = t0.elapsed().as_nanos() as u64;
     let allocs = allocs + ba;
-    Some(tail(format!("{}/{}:{}", fmt_opt(r), s1, s2), fmt_opt(naive_find(&hay, &needle)), allocs))
+    let out = tail(format!("{}/{}:{}", fmt_opt(r), s1, s2), fmt_opt(naive_find(&hay, &needle)), allocs);
+    let ns = crate::robust_ns(ns, hay.len() + needle.len(), || {
+        let _ = memchr::memmem::verif_hooks::find_with_state(&f, skips, skipped, ph.slice());
+    });
+    Some(format!("{} ns={}", out, ns))
 }
 
 /// `fnew <cfg> <pf> <ranker> <needle>`: construction cost and the strategy chosen
@@ -468,9 +474,15 @@ pub fn rfind_op(a: &[&str]) -> Option<String> {
     verif::register_region(ph.ptr(), hay.len());
     verif::register_region(pn.ptr(), needle.len());
     verif::set_tick_limit(crate::tick_limit(hay.len(), needle.len()));
+    let t0 = std::time::Instant::now();
     let (r, allocs) = alloc_probe::measure(|| f.rfind(ph.slice()));
+    let ns = t0.elapsed().as_nanos() as u64;
     let allocs = allocs + ba;
-    Some(tail(fmt_opt(r), fmt_opt(naive_rfind(&hay, &needle)), allocs))
+    let out = tail(fmt_opt(r), fmt_opt(naive_rfind(&hay, &needle)), allocs);
+    let ns = crate::robust_ns(ns, hay.len() + needle.len(), || {
+        let _ = f.rfind(ph.slice());
+    });
+    Some(format!("{} ns={}", out, ns))
 }
 
 /// `oneshot <cfg> fwd|rev <needle> <hbase> <hay>`
